@@ -712,12 +712,26 @@ pub fn step(w: &mut World, st: &Value) -> Option<Value> {
             let target = nav(w, &txn, &p.path)?;
             match (&target, p.a.as_str()) {
                 (Out::YText(t), "ins") => {
-                    let off = w.unit_offset(&txn, t, p.idx);
+                    // (`wide`: see "del")
+                    let idx = if w.wide { p.idx.min(World::text_units(&txn, t)) } else { p.idx };
+                    let off = w.unit_offset(&txn, t, idx);
                     t.insert(&mut txn, off, &p.chars);
                 }
                 (Out::YText(t), "del") => {
-                    // (whole characters: an index between the halves of a surrogate pair is never handed to the API)
-                    let (_, _, off, len) = w.unit_span(&txn, t, p.idx, p.n);
+                    // whole characters: an index between the halves of a surrogate pair is never handed to the API.
+                    // The seeded driver plans the operations of a transaction in advance, counting units; widening a range
+                    // to whole characters removes more than planned, so in `wide` behaviours a later range is cut to what is
+                    // left (nothing left: the operation is dropped) instead of asking the library for more than there is
+                    let (mut idx, mut n) = (p.idx, p.n);
+                    if w.wide {
+                        let total = World::text_units(&txn, t);
+                        if total == 0 {
+                            continue;
+                        }
+                        idx = idx.min(total - 1);
+                        n = n.min(total - idx);
+                    }
+                    let (_, _, off, len) = w.unit_span(&txn, t, idx, n);
                     t.remove_range(&mut txn, off, len);
                 }
                 (Out::YArray(arr), "ins") => match p.kind.as_str() {
